@@ -250,6 +250,28 @@ m('lzma2mt-cutter-no-plus-one', 'C08', 'SIZE-FIELD-TWIN', 'src/lzma2_reader_mt.r
 m('lzma2-reader-control-mask', 'C01', 'SIZE-FIELD-TWIN', 'src/lzma2_reader.rs',
   '((control & 0x1F) as usize) << 16', '((control & 0x0F) as usize) << 16', 'decode_chunk_header:control-bits')
 
+m('lzma2reader-two-decoders', 'C17', 'SINGLE-DECODER', 'src/lzma2_reader.rs',
+  """        self.lzma = None;
+        self.lzma = Some(LZMADecoder::new(""", """        self.lzma = Some(LZMADecoder::new(""", 'LZMA2Reader::decode_props:old-decoder-released-first')
+# ---- round 12
+m('lzdecoder-dist-equal-full', 'C06', 'DIST-BELOW-FULL', 'src/lz/lz_decoder.rs', 'if dist >= self.full {', 'if dist > self.full {', 'LZDecoder::repeat:distance-strictly-below-full')
+m('rc-encoder-norm-off-by-one', 'C01', 'RC-NORM-TWIN', 'src/enc/range_enc.rs', """        if self.range & TOP_MASK == 0 {
+            self.range <<= SHIFT_BITS;
+            self.shift_low()?;
+        }
+        Ok(())
+    }
+
+    pub(crate) fn encode_bit_tree""", """        if self.range <= TOP_MASK >> 9 {
+            self.range <<= SHIFT_BITS;
+            self.shift_low()?;
+        }
+        Ok(())
+    }
+
+    pub(crate) fn encode_bit_tree""", 'RangeEncoder::encode_bit:normalises-like')
+m('decode-without-final-normalize', 'C16', 'NORMALIZE-AT-END', 'src/decoder.rs', "        rc.normalize();\n        Ok(())", "        Ok(())", 'LZMADecoder::decode:Ok-only-after-normalize')
+
 M = [x for x in M if x['old'] is not None]
 
 
